@@ -6,6 +6,7 @@ from cxx2c import lit
 M = 'src/md5.cpp'
 MH = 'private/md5.h'
 S = 'private/sha1.h'
+CR = 'src/crypto.cpp'
 P = ['C16']
 # hash arithmetic is modular on purpose: no unsigned-overflow check; md5.cpp's alignment test subtracts a null pointer
 HASH_CHECKS = ['--no-standard-checks', '--bounds-check', '--pointer-check', '--div-by-zero-check', '--undefined-shift-check']
@@ -38,6 +39,31 @@ uint32_t g_r[4], g_X[16], g_in[4];
       g_r[i_] = g_r[(i_ + 1) & 3] + ROTL32(t_, md5_s[n]); \
       __CPROVER_assert(MD5_EQ, "md5: registers after this step equal the RFC 1321 step"); __CPROVER_assume(MD5_EQ); } while(0)
 
+/* ---------------- HMAC over an abstract message_digest (virtual append/readout are recorders observed at the arbitrary index g_hk) */
+#define HM_BMAX 128
+struct hm { unsigned block_size, digest_size; char const *key_p; size_t key_n; };
+enum { MD_IN, MD_OUT };
+size_t g_hk; unsigned char g_kp_i, g_kp_o; int g_md_app_calls[2]; size_t g_md_app_n[2], g_md_app_first_n[2]; unsigned char g_md_app_byte[2]; int g_md_rd_calls; unsigned char g_dig_byte;
+int g_final_calls; bool g_final_after_outer_app; size_t g_outer_fed_n; unsigned char g_outer_fed_byte; void *g_final_ptr;
+static void md_rec_append(int which, void const *ptr, size_t n)
+{
+  __CPROVER_assert(n == 0 || __CPROVER_r_ok(ptr, n), "message_digest::append(p,n) reads n bytes at p");
+  if(g_md_app_calls[which] == 0) g_md_app_first_n[which] = n;
+  if(g_md_app_calls[which] < 100) g_md_app_calls[which]++;
+  g_md_app_n[which] = n; if(g_hk < n) g_md_app_byte[which] = ((unsigned char const *)ptr)[g_hk];
+}
+/* readout writes digest_size bytes (arbitrary; the byte at g_hk is g_dig_byte) and resets that digest */
+static void md_rec_readout(struct hm *self, int which, void *out)
+{
+  __CPROVER_assert(__CPROVER_w_ok(out, self->digest_size), "message_digest::readout writes digest_size bytes");
+  if(g_hk < self->digest_size) ((unsigned char *)out)[g_hk] = g_dig_byte;
+  if(g_md_rd_calls < 100) g_md_rd_calls++;
+}
+static void md_rec_readout_final(struct hm *self, void *ptr)
+{
+  g_final_calls++; g_final_ptr = ptr; g_final_after_outer_app = (g_md_app_calls[MD_OUT] == 1); g_outer_fed_n = g_md_app_n[MD_OUT]; g_outer_fed_byte = g_md_app_byte[MD_OUT];
+  g_md_app_calls[0] = 0; g_md_app_calls[1] = 0; g_md_rd_calls = 0;       /* both digests are reset by their read-outs */
+}
 /* ---------------- streaming layer ghosts: the compression function is replaced by a recorder of WHICH bytes it is given:
    g_nblocks counts calls; the byte g_bj of call number g_bi is remembered in g_obs (arbitrary ghost pair chosen by the harness) */
 size_t g_nblocks, g_bi, g_bj, g_mk, g_mk2; unsigned char g_obs;
@@ -80,7 +106,7 @@ functions = [
                   '__CPROVER_ensures(pms->abcd[0] == 0x67452301u && pms->abcd[1] == 0xefcdab89u && pms->abcd[2] == 0x98badcfeu && pms->abcd[3] == 0x10325476u && pms->count[0] == 0 && pms->count[1] == 0)'),
     dict(stub=True, cname='verif_memcpy', sig='void *verif_memcpy(void *dst, void const *src, size_t n)',
          contract='/* C11 memcpy: disjoint valid ranges; dst[k] == src[k] at the two arbitrary ghost indices g_mk, g_mk2; nothing outside dst[0..n) changes */\n'
-                  '__CPROVER_requires(n <= 64 && (n == 0 || (__CPROVER_r_ok(src, n) && __CPROVER_w_ok(dst, n) && !SAME(dst, src))))\n'
+                  '__CPROVER_requires(n <= 128 && (n == 0 || (__CPROVER_r_ok(src, n) && __CPROVER_w_ok(dst, n) && !SAME(dst, src))))\n'
                   '__CPROVER_assigns(__CPROVER_object_upto(dst, n))\n'
                   '__CPROVER_ensures((g_mk < n ==> ((unsigned char *)dst)[g_mk] == ((unsigned char const *)src)[g_mk]) && (g_mk2 < n ==> ((unsigned char *)dst)[g_mk2] == ((unsigned char const *)src)[g_mk2]))'),
     dict(stub=True, cname='md5_process_c', sig='void md5_process_c(md5_state_t *pms, const md5_byte_t *data)',
@@ -195,6 +221,42 @@ __CPROVER_ensures((g_bi >= g_nb0 && g_bi < g_nblocks) ==> g_obs == (64 * (g_bi -
          contract='__CPROVER_requires(__CPROVER_rw_ok(self, sizeof(*self)))\n__CPROVER_assigns(self->h_[0], self->h_[1], self->h_[2], self->h_[3], self->h_[4], self->block_byte_index_, self->byte_count_)\n'
                   '/* FIPS 180-4 5.3.1 initial hash value */\n'
                   '__CPROVER_ensures(self->h_[0] == 0x67452301u && self->h_[1] == 0xefcdab89u && self->h_[2] == 0x98badcfeu && self->h_[3] == 0x10325476u && self->h_[4] == 0xc3d2e1f0u && self->block_byte_index_ == 0 && self->byte_count_ == 0)'),
+    # ---------------- HMAC (RFC 2104) over an abstract message_digest: what the inner and the outer hash are fed
+    dict(cname='hmac_init', file=CR, locate=lit('void hmac::init()'), sig='void hmac_init(struct hm *self)', self_arg='self', rename={'memcpy': 'verif_memcpy'},
+         rewrites=[(r'md_->block_size\(\)', 'self->block_size', 1), (r'md_->digest_size\(\)', 'self->digest_size', 1),
+                   (r'std::vector<unsigned char> (\w+)\(block_size,\w\);', r'unsigned char \1[HM_BMAX]; memset(\1, 0, HM_BMAX);', 2), (r'key_\.size\(\)', 'self->key_n', 4), (r'key_\.data\(\)', 'self->key_p', 3),
+                   (r'md_->append\(', 'md_rec_append(MD_IN, ', 2), (r'md_opad_->append\(', 'md_rec_append(MD_OUT, ', 1), (r'md_->readout\(', 'md_rec_readout(self, MD_IN, ', 1),
+                   (r'&(\w+)\.front\(\)', r'\1', 7), (r'(\w+)\.assign\(block_size,\w\);', r'memset(\1, 0, HM_BMAX);', 2)],
+         body_ghost='g_mk = g_hk; g_mk2 = g_hk;',
+         inserts=[(r'verif_memcpy\(opad,\s*self->key_p,\s*self->key_n\);\s*\}', 0, 'g_kp_i = ipad[g_hk]; g_kp_o = opad[g_hk];')],
+         loops={0: r'''
+__CPROVER_assigns(i, __CPROVER_object_whole(ipad), __CPROVER_object_whole(opad))
+__CPROVER_loop_invariant(i <= block_size && block_size <= HM_BMAX && g_hk < block_size &&
+      (g_hk < i ? (ipad[g_hk] == (unsigned char)(g_kp_i ^ 0x36) && opad[g_hk] == (unsigned char)(g_kp_o ^ 0x5c)) : (ipad[g_hk] == g_kp_i && opad[g_hk] == g_kp_o)))
+__CPROVER_decreases(block_size - i)'''},
+         contract=r'''
+__CPROVER_requires(__CPROVER_r_ok(self, sizeof(*self)) && self->block_size >= 16 && self->block_size <= HM_BMAX && self->digest_size >= 16 && self->digest_size <= self->block_size && self->key_n <= 4096 &&
+                   __CPROVER_r_ok(self->key_p, self->key_n) && g_hk < self->block_size && g_md_app_calls[0] == 0 && g_md_app_calls[1] == 0 && g_md_rd_calls == 0)
+__CPROVER_assigns(__CPROVER_object_whole(g_md_app_calls), __CPROVER_object_whole(g_md_app_n), __CPROVER_object_whole(g_md_app_byte), __CPROVER_object_whole(g_md_app_first_n), g_md_rd_calls, g_mk, g_mk2, g_kp_i, g_kp_o)
+/* RFC 2104: K' = K padded with zeros to the block size, or H(K) padded when K is longer than a block; the inner hash starts with K' xor 0x36.., the outer one with K' xor 0x5c.. (observed at the arbitrary index g_hk) */
+__CPROVER_ensures(g_md_app_calls[MD_OUT] == 1 && g_md_app_n[MD_OUT] == self->block_size && g_md_app_n[MD_IN] == self->block_size && g_md_app_calls[MD_IN] == (self->key_n > self->block_size ? 2 : 1))
+__CPROVER_ensures(self->key_n <= self->block_size ==> (g_md_rd_calls == 0 && g_md_app_byte[MD_IN] == (unsigned char)((g_hk < self->key_n ? (unsigned char)self->key_p[g_hk] : 0) ^ 0x36) &&
+                  g_md_app_byte[MD_OUT] == (unsigned char)((g_hk < self->key_n ? (unsigned char)self->key_p[g_hk] : 0) ^ 0x5c)))
+__CPROVER_ensures(self->key_n > self->block_size ==> (g_md_rd_calls == 1 && g_md_app_first_n[MD_IN] == self->key_n && g_md_app_byte[MD_IN] == (unsigned char)((g_hk < self->digest_size ? g_dig_byte : 0) ^ 0x36) &&
+                  g_md_app_byte[MD_OUT] == (unsigned char)((g_hk < self->digest_size ? g_dig_byte : 0) ^ 0x5c)))
+'''),
+    dict(cname='hmac_readout', file=CR, locate=lit('void hmac::readout(void *ptr)'), sig='void hmac_readout(struct hm *self, void *ptr)', rename={'init': 'hmac_init'}, self_arg='self',
+         rewrites=[(r'std::vector<unsigned char> digest\(md_->digest_size\(\),\w\);', 'unsigned char digest[HM_BMAX]; memset(digest, 0, HM_BMAX);', 1), (r'md_->digest_size\(\)', 'self->digest_size', 2),
+                   (r'md_->readout\(', 'md_rec_readout(self, MD_IN, ', 1), (r'md_opad_->append\(', 'md_rec_append(MD_OUT, ', 1), (r'md_opad_->readout\(ptr\)', 'md_rec_readout_final(self, ptr)', 0),
+                   (r'&digest\.front\(\)', 'digest', 2), (r'digest\.assign\(self->digest_size,\w\);', 'memset(digest, 0, HM_BMAX);', 1)],
+         contract=r'''
+__CPROVER_requires(__CPROVER_r_ok(self, sizeof(*self)) && self->block_size >= 16 && self->block_size <= HM_BMAX && self->digest_size >= 16 && self->digest_size <= self->block_size && self->key_n <= 4096 &&
+                   __CPROVER_r_ok(self->key_p, self->key_n) && g_hk < self->digest_size && g_md_app_calls[0] == 0 && g_md_app_calls[1] == 0 && g_md_rd_calls == 0 && g_final_calls == 0 && __CPROVER_w_ok(ptr, self->digest_size))
+__CPROVER_assigns(__CPROVER_object_whole(g_md_app_calls), __CPROVER_object_whole(g_md_app_n), __CPROVER_object_whole(g_md_app_byte), __CPROVER_object_whole(g_md_app_first_n), g_md_rd_calls, g_mk, g_mk2, g_kp_i, g_kp_o,
+                  g_final_calls, g_final_after_outer_app, g_outer_fed_n, g_outer_fed_byte, g_final_ptr)
+/* the tag is the outer hash read out AFTER it was fed exactly the inner digest (digest_size bytes, observed at g_hk); then the object is re-armed with the key (init) */
+__CPROVER_ensures(g_final_calls == 1 && g_final_ptr == ptr && g_final_after_outer_app && g_outer_fed_n == self->digest_size && g_outer_fed_byte == g_dig_byte)
+'''),
 ]
 jobs = [
     dict(name='md5_process', props=P, kind='plain', unwind=17, per_property=r'^md5_process\.assertion|^h_md5_process\.assertion', checks=HASH_CHECKS, timeout=300, cost=20, pp_workers=14,
@@ -210,13 +272,13 @@ jobs = [
     __CPROVER_assert(st.abcd[0] == st0.abcd[0] + g_r[0] && st.abcd[1] == st0.abcd[1] + g_r[1] && st.abcd[2] == st0.abcd[2] + g_r[2] && st.abcd[3] == st0.abcd[3] + g_r[3], "md5: registers += result of the 64 RFC steps");
     __CPROVER_assert(st.count[0] == st0.count[0] && st.count[1] == st0.count[1], "md5: length counters untouched by the compression function");
     size_t j; __CPROVER_assume(j < 64); __CPROVER_assert(st.buf[j] == st0.buf[j], "md5: block buffer untouched by the compression function");
-    VERIF_REACH;''', witness=dict(bufs=['block']), replay='c16:md5', replay_link=['-lcrypto', '-Wno-deprecated-declarations']),
-    dict(name='md5_append', props=P, replay='c16:md5', replay_link=['-lcrypto', '-Wno-deprecated-declarations'], replay_exhaustive='every message length 0..150 (all padding residues, one and two final blocks), 4 input alignments, fed in two chunks, digest compared with OpenSSL', enforce='md5_append', replace=['md5_process_c', 'verif_memcpy'], checks=HASH_CHECKS, timeout=300,
+    VERIF_REACH;''', witness=dict(bufs=['block']), replay='c16:md5', replay_link=['-lcrypto', '-Wno-deprecated-declarations', '-L{BUILD}', '-lcppcms', '-L{BUILD}/booster', '-lbooster']),
+    dict(name='md5_append', props=P, replay='c16:md5', replay_link=['-lcrypto', '-Wno-deprecated-declarations', '-L{BUILD}', '-lcppcms', '-L{BUILD}/booster', '-lbooster'], replay_exhaustive='every message length 0..150 (all padding residues, one and two final blocks), 4 input alignments, fed in two chunks, digest compared with OpenSSL', enforce='md5_append', replace=['md5_process_c', 'verif_memcpy'], checks=HASH_CHECKS, timeout=300,
          harness=r'''
     md5_state_t st; int n; __CPROVER_assume(n >= 0 && n < (1 << 28)); unsigned char *d = malloc(n > 0 ? n : 0); __CPROVER_assume(d != NULL);
     size_t bi, bj, nb; __CPROVER_assume(bj < 64 && nb <= BUF_CAP); g_bi = bi; g_bj = bj; g_nblocks = nb;
     md5_append(&st, d, n); VERIF_REACH;'''),
-    dict(name='md5_finish', props=P, replay='c16:md5', replay_link=['-lcrypto', '-Wno-deprecated-declarations'], replay_exhaustive='every message length 0..150 (all padding residues, one and two final blocks), 4 input alignments, fed in two chunks, digest compared with OpenSSL', enforce='md5_finish', replace=['md5_process_c', 'verif_memcpy'], pre_unwind=20, object_bits=10, checks=HASH_CHECKS, timeout=600, cost=15,
+    dict(name='md5_finish', props=P, replay='c16:md5', replay_link=['-lcrypto', '-Wno-deprecated-declarations', '-L{BUILD}', '-lcppcms', '-L{BUILD}/booster', '-lbooster'], replay_exhaustive='every message length 0..150 (all padding residues, one and two final blocks), 4 input alignments, fed in two chunks, digest compared with OpenSSL', enforce='md5_finish', replace=['md5_process_c', 'verif_memcpy'], pre_unwind=20, object_bits=10, checks=HASH_CHECKS, timeout=600, cost=15,
          complete_note='md5_append is inlined with its real body: its block loop runs at most once for the <= 64 padding bytes and once for the 8 length bytes; the 8- and 16-iteration loops of md5_finish are unwound (constant bounds, unwinding assertions on)',
          harness=r'''
     md5_state_t st, st0; unsigned char dg[16]; size_t bi, bj, nb, dk; __CPROVER_assume(bj < 64 && nb <= BUF_CAP && dk < 16);
@@ -237,14 +299,14 @@ jobs = [
     dict(name='left_rotate', props=P, enforce='left_rotate', checks=HASH_CHECKS, harness='unsigned x; size_t n; left_rotate(x, n); VERIF_REACH;'),
     dict(name='sha1_process_block0', props=P, enforce='sha1_process_block0', replace=['left_rotate'], checks=HASH_CHECKS, timeout=300, cost=20,
          harness='struct sha1 s; size_t t; __CPROVER_assume(t < 80); g_t = t; WIT_BUF(0, s.block_, 24); sha1_process_block0(&s); VERIF_REACH;',
-         witness=dict(bufs=['block']), replay='c16:sha1', replay_link=['-lcrypto', '-Wno-deprecated-declarations']),
-    dict(name='sha1_process_byte', props=P, replay='c16:sha1', replay_link=['-lcrypto', '-Wno-deprecated-declarations'], replay_exhaustive='every message length 0..150 (all padding residues, one and two final blocks), 4 input alignments, fed in two chunks, digest compared with OpenSSL', enforce='sha1_process_byte', replace=['sha1_process_block0_c'], checks=HASH_CHECKS,
+         witness=dict(bufs=['block']), replay='c16:sha1', replay_link=['-lcrypto', '-Wno-deprecated-declarations', '-L{BUILD}', '-lcppcms', '-L{BUILD}/booster', '-lbooster']),
+    dict(name='sha1_process_byte', props=P, replay='c16:sha1', replay_link=['-lcrypto', '-Wno-deprecated-declarations', '-L{BUILD}', '-lcppcms', '-L{BUILD}/booster', '-lbooster'], replay_exhaustive='every message length 0..150 (all padding residues, one and two final blocks), 4 input alignments, fed in two chunks, digest compared with OpenSSL', enforce='sha1_process_byte', replace=['sha1_process_block0_c'], checks=HASH_CHECKS,
          harness='struct sha1 s; unsigned char b; size_t bi, bj, nb; __CPROVER_assume(bj < 64 && nb <= BUF_CAP); g_bi = bi; g_bj = bj; g_nblocks = nb; sha1_process_byte(&s, b); VERIF_REACH;'),
-    dict(name='sha1_process_block_range', props=P, replay='c16:sha1', replay_link=['-lcrypto', '-Wno-deprecated-declarations'], replay_exhaustive='every message length 0..150 (all padding residues, one and two final blocks), 4 input alignments, fed in two chunks, digest compared with OpenSSL', enforce='sha1_process_block_range', replace=['sha1_process_byte'], checks=HASH_CHECKS, timeout=300,
+    dict(name='sha1_process_block_range', props=P, replay='c16:sha1', replay_link=['-lcrypto', '-Wno-deprecated-declarations', '-L{BUILD}', '-lcppcms', '-L{BUILD}/booster', '-lbooster'], replay_exhaustive='every message length 0..150 (all padding residues, one and two final blocks), 4 input alignments, fed in two chunks, digest compared with OpenSSL', enforce='sha1_process_block_range', replace=['sha1_process_byte'], checks=HASH_CHECKS, timeout=300,
          harness=r'''
     struct sha1 s; SYM_BUF(unsigned char, d, n, BUF_CAP); size_t bi, bj, nb; __CPROVER_assume(bj < 64 && nb <= BUF_CAP); g_bi = bi; g_bj = bj; g_nblocks = nb;
     sha1_process_block_range(&s, d, d + n); VERIF_REACH;'''),
-    dict(name='sha1_get_digest', props=P, replay='c16:sha1', replay_link=['-lcrypto', '-Wno-deprecated-declarations'], replay_exhaustive='every message length 0..150 (all padding residues, one and two final blocks), 4 input alignments, fed in two chunks, digest compared with OpenSSL', enforce='sha1_get_digest', replace=['sha1_process_byte'], object_bits=10, checks=HASH_CHECKS, timeout=600, cost=5,
+    dict(name='sha1_get_digest', props=P, replay='c16:sha1', replay_link=['-lcrypto', '-Wno-deprecated-declarations', '-L{BUILD}', '-lcppcms', '-L{BUILD}/booster', '-lbooster'], replay_exhaustive='every message length 0..150 (all padding residues, one and two final blocks), 4 input alignments, fed in two chunks, digest compared with OpenSSL', enforce='sha1_get_digest', replace=['sha1_process_byte'], object_bits=10, checks=HASH_CHECKS, timeout=600, cost=5,
          harness=r'''
     struct sha1 s, s0; unsigned int dg[5]; size_t bi, bj, nb, dk; __CPROVER_assume(bj < 64 && nb <= BUF_CAP && dk < 5);
     g_bi = bi; g_bj = bj; g_nblocks = nb; s0 = s;
@@ -261,6 +323,18 @@ jobs = [
     __CPROVER_assert(dg[dk] == s.h_[dk], "digest = H0..H4");
     VERIF_REACH;'''),
     dict(name='sha1_reset', props=P, enforce='sha1_reset', checks=HASH_CHECKS, harness='struct sha1 s; sha1_reset(&s); VERIF_REACH;'),
+]
+
+jobs += [
+    dict(name='hmac_init', props=P, replay='c16:hmac', replay_link=['-lcrypto', '-Wno-deprecated-declarations', '-L{BUILD}', '-lcppcms', '-L{BUILD}/booster', '-lbooster'], replay_exhaustive='HMAC-MD5 and HMAC-SHA1 of the real cppcms::crypto::hmac against OpenSSL for key lengths 0..150 and message lengths 0..70, object reused once', enforce='hmac_init', replace=['verif_memcpy'], checks=HASH_CHECKS, timeout=600,
+         harness=r'''
+    struct hm h; size_t kn, hk; __CPROVER_assume(kn <= 4096); char *kb = malloc(kn); __CPROVER_assume(kb != NULL); h.key_p = kb; h.key_n = kn; g_hk = hk; unsigned char db; g_dig_byte = db;
+    g_md_app_calls[0] = 0; g_md_app_calls[1] = 0; g_md_rd_calls = 0;
+    hmac_init(&h); VERIF_REACH;'''),
+    dict(name='hmac_readout', props=P, replay='c16:hmac', replay_link=['-lcrypto', '-Wno-deprecated-declarations', '-L{BUILD}', '-lcppcms', '-L{BUILD}/booster', '-lbooster'], replay_exhaustive='HMAC-MD5 and HMAC-SHA1 of the real cppcms::crypto::hmac against OpenSSL for key lengths 0..150 and message lengths 0..70, object reused once', enforce='hmac_readout', replace=['hmac_init'], checks=HASH_CHECKS, timeout=300, harness=r'''
+    struct hm h; size_t kn, hk; __CPROVER_assume(kn <= 4096); char *kb = malloc(kn); __CPROVER_assume(kb != NULL); h.key_p = kb; h.key_n = kn; g_hk = hk; unsigned char db; g_dig_byte = db;
+    g_md_app_calls[0] = 0; g_md_app_calls[1] = 0; g_md_rd_calls = 0; g_final_calls = 0; unsigned char out[HM_BMAX];
+    hmac_readout(&h, out); VERIF_REACH;'''),
 ]
 
 UNIT = dict(
